@@ -475,3 +475,173 @@ def ground_actions(P):
         for t in itertools.product(*doms):
             out.append({"a": a["name"], "args": list(t)})
     return out
+
+
+# ----------------------------------------------------------------------------------------
+# temporal extension (C05, C26, C28, C29)
+# ----------------------------------------------------------------------------------------
+def T(frm, delay=0):
+    return {"from": frm, "delay": NV(delay)}
+
+
+class TGen(Gen):
+    """Small temporal problems: durative actions with (open/closed, constant or fluent-dependent)
+    duration intervals, conditions over (open/closed, delayed) intervals, effects at start / end /
+    intermediate timings, timed effects and timed goals."""
+
+    def __init__(self, rng, **opts):
+        base = dict(hier=False, max_objects=2, max_fluents=4, max_actions=3, undefined=False, objfluents=False,
+                    quantifiers=False, forall_eff=False, invariants=True, real=True,
+                    fixed_durations=False, intermediate=True, timed=True, fluent_durations=True, inst_actions=True)
+        base.update(opts)
+        Gen.__init__(self, rng, **base)
+
+    def problem(self):
+        P = Gen.problem(self)
+        r, o = self.r, self.o
+        acts = []
+        for a in P["actions"]:
+            if o["inst_actions"] and r.random() < 0.2:
+                acts.append(a)
+            else:
+                acts.append(self.durative(a["name"]))
+        P["actions"] = acts
+        if o["timed"]:
+            for _ in range(r.choice([0, 0, 1, 1, 2])):
+                ef = self.effect({})
+                if ef is not None and not ef["forall"]:
+                    P["timed_effects"].append({"t": T("gstart", r.choice([1, 2, Fraction(5, 2), Fraction(1, 2), 3])), "e": ef})
+            P["timed_effects"] = self._dedupe_timed(P["timed_effects"])
+            for _ in range(r.choice([0, 0, 1])):
+                a = r.choice([0, 1, Fraction(1, 2), 2])
+                b = a + r.choice([0, 1, 2, Fraction(3, 2)])
+                lopen = r.random() < 0.3
+                ropen = r.random() < 0.3
+                if a == b:
+                    lopen = ropen = False
+                P["timed_goals"].append({"iv": {"lo": T("gstart", a), "hi": T("gstart", b), "lopen": lopen, "ropen": ropen},
+                                         "g": self.bool_expr(1, {}, {}, noconst=True)})
+        return P
+
+    def _dedupe_timed(self, tes):
+        out, seen = [], set()
+        for te in tes:
+            k = (repr(te["t"]), repr(te["e"]["f"]))
+            if k in seen:
+                continue
+            seen.add(k)
+            out.append(te)
+        return out
+
+    def duration(self, params):
+        r, o, P = self.r, self.o, self.P
+        if o["fixed_durations"] or r.random() < 0.35:
+            d = num(r.choice([1, 2, 3, Fraction(1, 2), Fraction(3, 2)]))
+            return {"lo": d, "hi": d, "lopen": False, "ropen": False}
+        lo = r.choice([0, Fraction(1, 2), 1, 2])
+        hi = lo + r.choice([Fraction(1, 2), 1, 2])
+        loe, hie = num(lo), num(hi)
+        nfl = [f for f in P["fluents"] if f["type"]["k"] in ("int", "real") and not f["sig"]]
+        if o["fluent_durations"] and nfl and r.random() < 0.25:
+            f = r.choice(nfl)
+            fe = E("fluent", [], name=f["name"])
+            if r.random() < 0.5:
+                hie = E("plus", [fe, num(r.choice([1, 2, 3]))])
+            else:
+                loe = E("minus", [fe, num(r.choice([1, 2]))])
+        return {"lo": loe, "hi": hie, "lopen": r.random() < 0.3, "ropen": r.random() < 0.3}
+
+    def cond_interval(self):
+        r, o = self.r, self.o
+        forms = ["start", "start", "end", "all", "all", "all-open", "all-lopen", "all-ropen"]
+        if o["intermediate"]:
+            forms += ["mid", "mid-open", "mid-point"]
+        k = r.choice(forms)
+        if k == "start":
+            return {"lo": T("start"), "hi": T("start"), "lopen": False, "ropen": False}
+        if k == "end":
+            return {"lo": T("end"), "hi": T("end"), "lopen": False, "ropen": False}
+        if k.startswith("all"):
+            return {"lo": T("start"), "hi": T("end"), "lopen": k in ("all-open", "all-lopen"), "ropen": k in ("all-open", "all-ropen")}
+        d1 = r.choice([Fraction(1, 2), 1])
+        if k == "mid-point":
+            return {"lo": T("start", d1), "hi": T("start", d1), "lopen": False, "ropen": False}
+        d2 = r.choice([Fraction(1, 2), 1])
+        op = k == "mid-open"
+        return {"lo": T("start", d1), "hi": T("end", -d2), "lopen": op and r.random() < 0.7, "ropen": op and r.random() < 0.7}
+
+    def eff_timing(self):
+        r, o = self.r, self.o
+        forms = ["start", "start", "end", "end", "end"]
+        if o["intermediate"]:
+            forms += ["start+", "end-"]
+        k = r.choice(forms)
+        if k == "start":
+            return T("start")
+        if k == "end":
+            return T("end")
+        if k == "start+":
+            return T("start", r.choice([Fraction(1, 2), 1]))
+        return T("end", -r.choice([Fraction(1, 2), 1]))
+
+    def durative(self, name):
+        r, o, P = self.r, self.o, self.P
+        params, plist = {}, []
+        pn = self.names("p", 2)
+        if r.random() < 0.4:
+            t = self.type_of(r.choice(P["types"])["name"])
+            params[pn[0]] = t
+            plist.append({"name": pn[0], "type": t})
+        conds = []
+        for _ in range(r.choice([0, 1, 1, 2, 3])):
+            conds.append({"iv": self.cond_interval(), "c": self.bool_expr(r.choice([0, 1]), params, {}, noconst=True)})
+        effs = []
+        for _ in range(r.choice([1, 2, 2, 3])):
+            ef = self.effect(params)
+            if ef is None or ef["forall"]:
+                continue
+            effs.append({"t": self.eff_timing(), "e": ef})
+        # model-building rule of unified-planning: per timing, no two unconditional effects on one expression
+        out, seen = [], {}
+        for te in effs:
+            k = (repr(te["t"]), repr(te["e"]["f"]))
+            if k in seen:
+                continue
+            seen[k] = 1
+            out.append(te)
+        return {"name": name, "kind": "dur", "params": plist, "pre": [], "effects": out, "conds": conds,
+                "dur": self.duration(params), "sim": False}
+
+
+def const_num(e):
+    """numeric value of a constant expression node, else None (syntactic helper for plan generators)"""
+    if e["op"] == "const" and e["v"]["k"] == "n":
+        return Fraction(e["v"]["n"], e["v"]["d"])
+    return None
+
+
+def random_tt_plan(rng, P, maxlen=3):
+    """a random time-triggered plan on a coarse rational grid (forces coinciding happenings)"""
+    gas = ground_actions(P)
+    if not gas:
+        return []
+    acts = {a["name"]: a for a in P["actions"]}
+    steps = []
+    for _ in range(rng.randint(1, maxlen)):
+        g = rng.choice(gas)
+        a = acts[g["a"]]
+        t = rng.choice([0, 0, Fraction(1, 2), 1, 1, Fraction(3, 2), 2, 3])
+        st = {"a": g["a"], "args": g["args"], "t": NV(t), "d": NV(0)}
+        if a["kind"] == "dur":
+            lo, hi = const_num(a["dur"]["lo"]), const_num(a["dur"]["hi"])
+            cands = [Fraction(1, 2), 1, Fraction(3, 2), 2, 3]
+            if lo is not None:
+                cands += [lo, lo, lo + Fraction(1, 2), lo - Fraction(1, 2)]
+            if hi is not None:
+                cands += [hi, hi, hi - Fraction(1, 2), hi + Fraction(1, 2)]
+            if lo is not None and hi is not None:
+                cands += [(lo + hi) / 2] * 3
+            cands = [c for c in cands if c > 0]
+            st["d"] = NV(rng.choice(cands))
+        steps.append(st)
+    return steps
